@@ -92,6 +92,8 @@ int idn2_to_ascii_8z(const char *input, char **output, int flags)
     return 0;
 }
 
+void idn2_free(void *p) { free(p); }
+
 static int fl(const eav_result_t *r) { return (r->is_ipv4 ? 1 : 0) | (r->is_ipv6 ? 2 : 0) | (r->is_domain ? 4 : 0); }
 
 void harness(void)
